@@ -23,7 +23,7 @@ RULE = ("a case is (version, all_metrics, answer script); distinct = distinct sc
         "another metric, padded answers, repeated invalid answers, truncation at every index (premature EOF).")
 
 
-def check_dialogue(P, vtag, all_metrics, answers, target=None):
+def check_dialogue(P, vtag, all_metrics, answers, target=None, version_arg=None):
     P.evaluations += 1
     ver = DLG.VER_OF[vtag]
     prefix = DLG.PREFIX_OF[vtag]
@@ -32,7 +32,10 @@ def check_dialogue(P, vtag, all_metrics, answers, target=None):
     if target:
         case["target"] = list(target)
     tk = ":target-%s" % target[0] if target else ""
-    r = DLG.run_dialogue(vtag, all_metrics, answers)
+    if version_arg is not None:
+        case["version_arg"] = repr(version_arg)
+        P.stratum("version-argument:%r" % (version_arg,))
+    r = DLG.run_dialogue(vtag, all_metrics, answers, version_arg=version_arg)
     if r["exc"] == "ReadLimit":
         P.notes.append("INCONCLUSIVE:read-count watchdog hit in an interactive run")
         return
@@ -126,7 +129,9 @@ def check_dialogue(P, vtag, all_metrics, answers, target=None):
 
 
 def check_case(P, case):
-    check_dialogue(P, case["version"], case["all_metrics"], case["answers"], tuple(case["target"]) if case.get("target") else None)
+    va = case.get("version_arg")
+    check_dialogue(P, case["version"], case["all_metrics"], case["answers"], tuple(case["target"]) if case.get("target") else None,
+                   version_arg=(float(va) if "." in va else int(va)) if va else None)
 
 
 def mixed(rng, v):
@@ -203,7 +208,9 @@ def shard(P, vtag, all_metrics, n_noise, seed):
     k = 0
     for ans, target in scripts(rng, vtag, all_metrics, order, n_noise):
         P.dist((vtag, all_metrics, tuple(ans)))
-        check_dialogue(P, vtag, all_metrics, ans, target)
+        # every spelling of the version argument that denotes this version (4 == 4.0 ...)
+        alts = DLG.VERSION_ARG_ALT[vtag]
+        check_dialogue(P, vtag, all_metrics, ans, target, version_arg=alts[k % len(alts)])
         k += 1
         if k % 251 == 1:
             P.sample({"version": vtag, "all_metrics": all_metrics, "answers": ans})
